@@ -21,6 +21,9 @@ type UA struct {
 	V    int            `json:"v"`
 	Note string         `json:"note,omitempty"`
 	M    map[string]int `json:"m,omitempty"`
+	// X: an interface-typed member; a JSON number in it decodes to float64 under encoding/json's default rules,
+	// and the upcaster function looks at what it was given
+	X any `json:"x,omitempty"`
 }
 type UB struct {
 	V int    `json:"v"`
@@ -31,7 +34,13 @@ type UC struct {
 	Tags  []string `json:"tags"`
 }
 
-func upAB(a UA) UB { return UB{V: a.V + 1, W: fmt.Sprintf("from-a-%d-%s-%d", a.V, a.Note, len(a.M))} }
+func upAB(a UA) UB {
+	w := fmt.Sprintf("from-a-%d-%s-%d", a.V, a.Note, len(a.M))
+	if a.X != nil {
+		w += fmt.Sprintf("-%T:%v", a.X, a.X)
+	}
+	return UB{V: a.V + 1, W: w}
+}
 
 // mkUA: stored UA payloads of different shapes (fields present or omitted), so that a decoder
 // that carries state from one event to the next is visible.
@@ -42,6 +51,12 @@ func mkUA(v int) UA {
 	}
 	if v%3 == 0 {
 		a.M = map[string]int{fmt.Sprintf("k%d", v): v}
+	}
+	switch v % 5 {
+	case 1:
+		a.X = float64(v) + 0.5
+	case 3:
+		a.X = []any{float64(v), "s", map[string]any{"n": 1e21}}
 	}
 	return a
 }
@@ -91,6 +106,10 @@ type C17Scenario struct {
 	// ClearDuring: another task calls ClearUpcasts while the replay runs. Each event must then be seen
 	// either fully upcast or untouched - never at an intermediate type.
 	ClearDuring bool `json:"clear_during,omitempty"`
+	// CancelAtP1 (0 = never): the callback's (CancelAtP1-1)-th call cancels the context of the replay. The replay
+	// may stop there or (a paged store notices between pages) hand over some more events; every event it does
+	// hand over is still the whole chain's result.
+	CancelAtP1 int `json:"cancel_at_p1,omitempty"`
 }
 
 func c17Name(i int) string {
@@ -156,10 +175,15 @@ func genC17(rt *rapid.T) core.Scenario {
 	}
 	sc.Subscribe = sc.Typed == 2 && rapid.Bool().Draw(rt, "subscribe")
 	sc.Store = StoreCfg{Kind: rapid.SampledFrom([]string{"mem", "mem", "mem", "sqlite"}).Draw(rt, "store")}
+	sc.Store.HideStreamer = rapid.IntRange(0, 2).Draw(rt, "paged") == 2
+	if !sc.Subscribe && rapid.IntRange(0, 3).Draw(rt, "cancels") == 3 {
+		sc.CancelAtP1 = 1 + rapid.IntRange(0, 3).Draw(rt, "cancelAt")
+	}
 	if rapid.IntRange(0, 3).Draw(rt, "clearDuring") == 3 {
 		sc.ClearDuring = true
 		sc.FailAt = -1
 		sc.Subscribe = false
+		sc.CancelAtP1 = 0
 		sc.Tape = core.DrawTape(rt, 200)
 	}
 	return sc
@@ -223,8 +247,12 @@ func (sc *C17Scenario) Execute(t *testing.T) *core.Outcome {
 		failed := 0
 		var errCalls []string
 		var opts []eventbus.Option
+		var busStore eventbus.EventStore = store
+		if sc.Store.HideStreamer {
+			busStore = newFcore(store, FaultPlan{}, &rec).wrap(true) // the bus sees Append / Read only: replays go page by page
+		}
 		if !sc.StoreLast {
-			opts = append(opts, eventbus.WithStore(store))
+			opts = append(opts, eventbus.WithStore(busStore))
 		}
 		errHandler := func(typ string, data json.RawMessage, err error) {
 			errCalls = append(errCalls, typ)
@@ -257,7 +285,7 @@ func (sc *C17Scenario) Execute(t *testing.T) *core.Outcome {
 			}
 		}
 		if sc.StoreLast {
-			opts = append(opts, eventbus.WithStore(store))
+			opts = append(opts, eventbus.WithStore(busStore))
 		}
 		if sc.ErrHandler && !sc.BySetter && sc.HandlerLast {
 			opts = append(opts, eventbus.WithUpcastErrorHandler(errHandler))
@@ -374,11 +402,18 @@ func (sc *C17Scenario) Execute(t *testing.T) *core.Outcome {
 		if sc.ClearDuring {
 			clearer = simrt.GoNamed("clearer", func() { bus.ClearUpcasts() })
 		}
-		err = bus.ReplayWithUpcast(ctx, eventbus.OffsetOldest, func(e *eventbus.StoredEvent) error {
+		rctx, rcancel := context.WithCancel(ctx)
+		defer rcancel()
+		err = bus.ReplayWithUpcast(rctx, eventbus.OffsetOldest, func(e *eventbus.StoredEvent) error {
 			seen = append(seen, c17Seen{e.Offset, e.Type, string(e.Data), e.Timestamp})
+			if sc.CancelAtP1 > 0 && len(seen) == sc.CancelAtP1 {
+				out.Fault("replay-context-cancelled-in-callback")
+				rcancel()
+			}
 			return nil
 		})
-		if err != nil {
+		cancelled := sc.CancelAtP1 > 0 && len(seen) >= sc.CancelAtP1
+		if err != nil && !(cancelled && errors.Is(err, context.Canceled)) {
 			out.V("replay-error", "ReplayWithUpcast returned %v", err)
 			return
 		}
@@ -386,7 +421,7 @@ func (sc *C17Scenario) Execute(t *testing.T) *core.Outcome {
 			out.Fault("upcaster-returns-error")
 		}
 		simrt.Join(clearer)
-		if len(seen) != len(stored) {
+		if len(seen) != len(stored) && !(cancelled && len(seen) < len(stored)) {
 			out.V("upcast-replay-count", "callback saw %d events, log has %d", len(seen), len(stored))
 			return
 		}
@@ -413,6 +448,9 @@ func (sc *C17Scenario) Execute(t *testing.T) *core.Outcome {
 				}
 				out.V(kind, "event %d (stored type %s data %s): callback saw type %s data %s, expected type %s data %s (failure in chain=%v, fail_at=%d)", i, stored[i].Type, trunc(string(stored[i].Data)), s.Type, trunc(s.Data), w.typ, trunc(w.data), w.errs > 0, sc.FailAt)
 			}
+		}
+		if cancelled && len(seen) < len(stored) {
+			return // the replay was cut short: the remaining rules are about complete replays
 		}
 		if sc.ErrHandler && len(errCalls) != wantErrCalls {
 			out.V("upcast-error-handler-count", "upcast error handler called %d times for %d failed chains", len(errCalls), wantErrCalls)
